@@ -20,6 +20,7 @@ type HarnessSpec struct {
 	Fn         *ssa.Function
 	Params     map[string]int
 	MapReverse bool
+	MapAlternate bool
 	Witnesses  []string
 }
 
@@ -346,6 +347,8 @@ func runPath(in *Interp, ex *Exec, h HarnessSpec, it WorkItem) (status, detail s
 	ex.params = h.Params
 	in.restoreGlobals()
 	in.mapReverse = h.MapReverse
+	in.mapAlternate = h.MapAlternate
+	in.mapRanges = 0
 	defer func() {
 		r := recover()
 		if r == nil {
